@@ -461,13 +461,16 @@ macro_rules! int_type {
             }
 
             /// words: mode, a[N], b[N], c[N], m[N], s.
+            /// mode 3: as 2, without the operations of `a` alone.
             /// mode 0: every operator form; 1: one form per distinct implementation body (the by-reference
             /// and assign forms delegate); 2: as 1, and operations that panic on overflow are left out when
             /// overflow-checks are on (16-bit sweeps).
             pub fn check_impl<const FAST: bool>(w: &[u64], mut t: Option<&mut Tally>) -> Result<(), Fail> {
                 let mode = w[0];
                 let full = mode == 0;
-                let skip_ovf = mode == 2 && ovf();
+                let skip_ovf = mode >= 2 && ovf();
+                // mode 3: only operations of two vector operands (every value of `a` alone is met by the strided sweeps)
+                let unary = mode != 3;
                 let a = arr(&w[1..1 + N]);
                 let b = arr(&w[1 + N..1 + 2 * N]);
                 let c = arr(&w[1 + 2 * N..1 + 3 * N]);
@@ -528,8 +531,10 @@ macro_rules! int_type {
                 }
 
                 // the carrier itself
-                vop!("from_array/to_array", "", V::from_array(a).to_array(), &Ok(a));
-                vop!("splat", "", V::splat(s).to_array(), &Ok([s; N]));
+                if unary {
+                    vop!("from_array/to_array", "", V::from_array(a).to_array(), &Ok(a));
+                    vop!("splat", "", V::splat(s).to_array(), &Ok([s; N]));
+                }
 
                 // ---- + - * / % in every operator form
                 macro_rules! arith {
@@ -584,7 +589,7 @@ macro_rules! int_type {
                 bitop!("bitand", &);
                 bitop!("bitor", |);
                 bitop!("bitxor", ^);
-                {
+                if unary {
                     let mut e = [0 as T; N];
                     for i in 0..N {
                         e[i] = !a[i];
@@ -657,14 +662,14 @@ macro_rules! int_type {
                 sel_s! { $sg;
                     lw!("div_euclid", div_euclid, vb, b, |x: T, y: T| x.checked_div_euclid(y).is_none());
                     lw!("rem_euclid", rem_euclid, vb, b, |x: T, y: T| x.checked_rem_euclid(y).is_none());
-                    {
+                    if unary {
                         let e = oracle::<FAST, _>(false, validate, || { let mut e = [0 as T; N]; for i in 0..N { e[i] = a[i].signum(); } e });
                         vop!("signum", "", va.signum().to_array(), &e);
                         let mut mask = 0u32;
                         for i in 0..N { if a[i].is_negative() { mask |= 1 << i; } }
                         vop!("is_negative_bitmask", "", va.is_negative_bitmask(), &Ok(mask));
                     }
-                    if !skip_ovf {
+                    if !skip_ovf && unary {
                         let e = oracle::<FAST, _>(ovf() && (0..N).any(|i| a[i].checked_neg().is_none()), validate, || { let mut e = [0 as T; N]; for i in 0..N { e[i] = -a[i]; } e });
                         vop!("neg", "v", (-va).to_array(), &e);
                         if full {
@@ -703,12 +708,14 @@ macro_rules! int_type {
                         mn = Ord::min(mn, a[i]);
                         mx = Ord::max(mx, a[i]);
                     }
-                    vop!("min_element", "", va.min_element(), &Ok(mn));
-                    vop!("max_element", "", va.max_element(), &Ok(mx));
-                    let pmin = (0..N).find(|&i| a[i] == mn).unwrap();
-                    let pmax = (0..N).find(|&i| a[i] == mx).unwrap();
-                    vop!("min_position", "", va.min_position(), &Ok(pmin));
-                    vop!("max_position", "", va.max_position(), &Ok(pmax));
+                    if unary {
+                        vop!("min_element", "", va.min_element(), &Ok(mn));
+                        vop!("max_element", "", va.max_element(), &Ok(mx));
+                        let pmin = (0..N).find(|&i| a[i] == mn).unwrap();
+                        let pmax = (0..N).find(|&i| a[i] == mx).unwrap();
+                        vop!("min_position", "", va.min_position(), &Ok(pmin));
+                        vop!("max_position", "", va.max_position(), &Ok(pmax));
+                    }
                     // distances: abs_diff per lane
                     let mut d = [0 as U; N];
                     for i in 0..N {
@@ -748,15 +755,19 @@ macro_rules! int_type {
                         }};
                     }
                     let la: [Option<i128>; N] = std::array::from_fn(|i| Some(a[i] as i128));
+                    if unary {
                     red!("element_sum", va.element_sum(), la, false, a.iter().fold(0 as T, |x, y| x.wrapping_add(*y)));
                     red!("element_product", va.element_product(), la, true, a.iter().fold(1 as T, |x, y| x.wrapping_mul(*y)));
+                    }
                     let prod = |x: T, y: T| -> Option<i128> { x.checked_mul(y).map(|p| p as i128) };
                     let ld: [Option<i128>; N] = std::array::from_fn(|i| prod(a[i], b[i]));
                     let dv = (0..N).fold(0 as T, |acc, i| acc.wrapping_add(a[i].wrapping_mul(b[i])));
                     red!("dot", va.dot(vb), ld, false, dv);
                     red!("dot_into_vec", va.dot_into_vec(vb).to_array(), ld, false, [dv; N]);
                     let ll: [Option<i128>; N] = std::array::from_fn(|i| prod(a[i], a[i]));
+                    if unary {
                     red!("length_squared", va.length_squared(), ll, false, (0..N).fold(0 as T, |acc, i| acc.wrapping_add(a[i].wrapping_mul(a[i]))));
+                    }
                     sel_s! { $sg;
                         let lq: [Option<i128>; N] = std::array::from_fn(|i| a[i].checked_sub(b[i]).and_then(|d| prod(d, d)));
                         let qv = (0..N).fold(0 as T, |acc, i| { let d = a[i].wrapping_sub(b[i]); acc.wrapping_add(d.wrapping_mul(d)) });
@@ -768,8 +779,10 @@ macro_rules! int_type {
                 if !skip_ovf {
                     sel_s! { $sg;
                         sel_dim2! { $N;
-                            let e = cat::<FAST, _>(|| [-a[1], a[0]]);
-                            vop!("perp", "", va.perp().to_array(), &e);
+                            if unary {
+                                let e = cat::<FAST, _>(|| [-a[1], a[0]]);
+                                vop!("perp", "", va.perp().to_array(), &e);
+                            }
                             let e = cat::<FAST, _>(|| (a[0] * b[1]) - (a[1] * b[0]));
                             vop!("perp_dot", "", va.perp_dot(vb), &e);
                             let e = cat::<FAST, _>(|| [a[0] * b[0] - a[1] * b[1], a[1] * b[0] + a[0] * b[1]]);
@@ -1129,15 +1142,17 @@ macro_rules! int_type {
                     format!("pairs16/{}/{}", TY, VARIANT),
                     16,
                     |env: &mut Env| {
-                        let thorough = env.args.tier == Tier::Thorough && env.args.scale >= 1.0;
-                        let stride: u64 = if thorough { 1 } else if env.args.tier == Tier::Thorough { 61 } else { 4099 };
+                        // complete in the thorough tier at full scale, strided otherwise
+                        let stride: u64 = if env.args.tier != Tier::Thorough { 4099 } else if env.args.scale >= 1.0 { 1 } else { 16 };
                         let total: u64 = (1u64 << 32) / stride;
                         let offset = mix(env.args.seed, 1613) % stride;
                         let mut ev = 0u64;
                         let mut nt = 0u64;
                         for idx in env.my_range(total) {
                             let pr = idx * stride + offset;
-                            let w = pair_words(2, N, (pr >> 16) & 0xffff, pr & 0xffff);
+                            // complete sweep: the operations of `a` alone only on every 64th pair
+                            let mode = if stride == 1 && idx & 63 != 0 { 3 } else { 2 };
+                            let w = pair_words(mode, N, (pr >> 16) & 0xffff, pr & 0xffff);
                             ev += 1;
                             nt += nontrivial(&arr(&w[1..1 + N]), &arr(&w[1 + N..1 + 2 * N])) as u64;
                             if !env.direct(&w, &check_fast) {
